@@ -24,6 +24,7 @@ HERE = os.path.dirname(os.path.dirname(os.path.abspath(__file__)))
 
 
 TITLES = {}
+HOST_AFTER = [None]
 
 
 def build_sa(sa_db, style, steps, flt):
@@ -50,13 +51,17 @@ def build_sa(sa_db, style, steps, flt):
         elif kind == "annotate":
             q = q.add_columns((Post.id * 2).label("extra"))
         elif kind == "apply":
+            host = q
             q = apply_odata_query(q, flt)
     if sel:
         rows = sa_db.session.execute(q).all()
         sql = str(q.compile(sa_db.engine))
+        hrows = sa_db.session.execute(host).all()        # the host's own query object, used again afterwards
     else:
         rows = q.all()
         sql = str(q.statement.compile(sa_db.engine))
+        hrows = host.all()
+    HOST_AFTER[0] = [(r[0] if cols else r[0].id if (hasattr(r, "_fields") or isinstance(r, tuple)) else r.id) for r in hrows]
     if cols:
         return [("title", r[0], r[1] if len(r) > 1 else None) for r in rows], sql
     out = []
@@ -86,8 +91,10 @@ def build_dj(dj_db, style, steps, flt):
             q = q.annotate(extra=F("id") * 2)
             annotated = True
         elif kind == "apply":
+            host = q
             q = apply_odata_query(q, flt)
     rows = list(q.values_list("id", "extra")) if annotated else [(i, None) for i in q.values_list("id", flat=True)]
+    HOST_AFTER[0] = list(host.all().values_list("id", flat=True))      # the host's own queryset / manager, used again afterwards
     return rows, str(q.query)
 
 
@@ -129,6 +136,16 @@ def check_case(ctx, r, dj, sa):
     except Exception as e:  # noqa
         ctx.violation(dict(key, what="raised", exc=type(e).__name__), {"case": r, "exc": str(e)[:300]})
         return
+    # the host's query object still selects the base rows (the shorthand returns a new query, it does not edit the host's)
+    host_ids = HOST_AFTER[0]
+    if style.endswith("-cols"):
+        tt = {p["id"]: backends._col(p["title"]) for p in TITLES[r["inst"]]}
+        ks0 = (lambda x: (x is None, x or ""))
+        host_ok = sorted(host_ids, key=ks0) == sorted((tt[i] for i in r["base"]), key=ks0)
+    else:
+        host_ok = sorted(set(host_ids)) == sorted(r["base"])
+    if not host_ok:
+        ctx.violation(dict(key, what="host-query-changed"), {"case": r, "host_rows_after": host_ids[:40], "base": sorted(r["base"])[:40]})
     want = sorted(r["expected"])
     bag = sorted(i for i, m in r["mult"] for _ in range(m))          # a filter that joins a collection: once per match
     if style.endswith("-cols"):
